@@ -234,4 +234,21 @@ def run (p : Params) (os : List Outcome) : Run := runFrom p (startRun p) os
 /-- index of the next scheduled time that the clock has not been sent to yet -/
 def pending (s : TM) : Nat := if s.aboutToHit then s.idx - 1 else s.idx
 
+/-! ### vocabulary of the property statements -/
+
+/-- the initial step fits in the first scheduled interval -/
+def Fits (p : Params) : Prop := p.timeInit + p.dtInit ≤ p.schedule.getD 1 0
+
+/-- Premise of the property: parameters the constructor accepts, adaptive mode, the initial step fits
+    the first scheduled interval; plus what the constructor does not check but the statement needs:
+    non-negative tolerances and a positive lower bound for the step (or positive factors). -/
+def Admissible (p : Params) : Prop :=
+  Valid p ∧ p.constantDt = false ∧ Fits p ∧ 0 ≤ p.rtol ∧ 0 ≤ p.atol ∧
+    (0 < p.dtMin ∨ (0 < p.underRelax ∧ 0 < p.recompFactor))
+
+instance (p : Params) : Decidable (Admissible p) := by unfold Admissible Fits; infer_instance
+
+/-- the scheduled time `y` is hit (within the manager's tolerance) by one of the times `acc` -/
+def HitBy (p : Params) (acc : List Rat) (y : Rat) : Prop := ∃ a ∈ acc, isclose p.rtol p.atol a y = true
+
 end PorepyVerif.C09
